@@ -193,15 +193,12 @@ theorem finishCommit_auth (cap : Nat) (ch : QChan) (r : Retained) : (finishCommi
 theorem reconcile_auth (cap : Nat) (ch : QChan) (st : Store) (cmd : Cmd) (cs : List Nat) :
     (reconcile cap ch st cmd cs).1.auth = ch.auth := by
   unfold reconcile
-  split
-  · rfl
-  · split
-    · rfl
-    · split
-      · rfl
-      · split
-        · rfl
-        · split <;> rfl
+  cases st.byCmd cmd with
+  | none => rfl
+  | some p =>
+    dsimp only
+    repeat' split
+    all_goals rfl
 
 theorem commitRetry_chan (s : Sys) (i : Nat) (ch : QChan) (r : Retained) (acks : List Ack)
     (h : chanOf s i = some (some ch)) :
@@ -309,7 +306,7 @@ theorem commit_receipt_guard (s : Sys) (i : Nat) (e : AuthId) (c : Nat) (cs : Li
             · rename_i h1 h2 h3
               refine ⟨nd, ch, rfl, hc, ?_, ?_, ?_⟩
               · simpa using h1
-              · simpa using h2.symm
+              · have := h2; simp at this; exact this.symm
               · simpa using h3
 
 end WK.Repl
